@@ -35,6 +35,7 @@ func init() {
 			"per description and JSON-defaults mode the registration sets: exact, every single omission, single additions per category (fresh media type, wildcard media type, media type with a parameter, fresh/other-method/path-case/trailing-slash operation (also substituted for the declared one), fresh/case-variant scheme, authenticator for a declared-but-unused definition), case variants of media types and methods, duplicates, random multi-category deltas, Register* calls made on the same API value AFTER a judged Validate (one superfluous item after a success, the one missing item after a failure, an existing key registered again) followed by another judged Validate, caller-assigned DefaultConsumes/DefaultProduces (a named media type); the root template '/' is declared now and then; " +
 			"oracle = per-category set comparison computed from the generated description; Validate is called twice in a row on every API (same outcome required); every registration set that validates (exact, case variants, duplicates, application/json left to the JSON defaults, ...) is served, after the second Validate, through Context.APIHandler with >= 3 well-formed requests per operation (each consumes/produces type, charset parameter, upper-case media type, Accept forms incl. 'application/json, <declared>;q=0.9' and 'application/json, */*;q=0.8' on operations that produce no JSON, scripted 'does not apply' authenticators) using tagged stub consumers/producers/authenticators; one description in 20 is also validated with one media type in mixed case (registered as spelt: must validate) or with a parameter (outcome classed 'probe:nonlower-description/...', not judged). " +
 			"Consumes lists name multipart/form-data and application/x-www-form-urlencoded now and then (next to other types or alone; an operation whose own consumes list names form types only declares a formData parameter two times in three, and is sent real forms); DELETE and OPTIONS operations declare and are sent bodies too; the anonymous security alternative comes first or last, and an operation that has one also gets a request on which every scheme 'does not apply'; one registration set per description also registers an allow-all authorizer. " +
+			"One operation in six declares 204 as its success status (200/201 otherwise), and one description in ten is command-style: no produces at any level, two operations in three answering 204 - validated without JSON defaults such an API holds no producer at all and is served like every other. " +
 			"One description in 50 is WIDE: 24-100 names in one category (operations /bulk/rNN, consumed or produced media types application/vnd.c19.tNN+json, security schemes sNN each used by an operation), with the same registration sets (every single omission included); its first 3 validated APIs are served, 8 sampled operations each. " +
 			"Every request is sent through one of two pipelines built from the SAME validated untyped.API value: the untyped one (Context.APIHandler of NewContext, or middleware.Serve), or - one request in three - the one of a generated server (gen.GeneratedAPI: a RoutableAPI on a Context made by NewRoutableContext whose operation handlers run RouteInfo, Authorize, BindValidRequest with a RequestBinder that parses forms with net/http and decodes bodies with route.Consumer, the handler, Respond); on every second request the handler returns a middleware.Responder that writes the declared status and calls the producer it is handed (judged like a plain value: status, announced media type, the stub producer that wrote; plus: BindValidRequest must have selected a consumer for a body the binder decodes, the Responder must be handed a producer). " +
 			"non-trivial = (description, registration set) with a non-empty delta, distinct by (description hash, delta); and (description, mode, registration kind, operation, request shape) served by a validated API whose description names >= 2 media types",
@@ -43,7 +44,7 @@ func init() {
 			"every security requirement names a declared security definition (valid Swagger); 'consumes'/'produces' are never present-but-empty",
 			"a media type or scheme named only globally and overridden by every operation is required under the reading 'everything the description names' and not under the reading 'everything some operation uses': the oracle accepts an outcome that is consistent with either reading, but for one category only ONE reading over the whole run: a validation that only the first reading explains and another that only the second explains, for the same category, are a violation (success would be 'exactly when' under neither)",
 			"the statement fixes neither the order of reported names nor, for the security-definitions category, which of the two lists carries an unused definition: names are compared as sets (duplicates refused), and for that category the union of both lists is compared",
-			"for an operation for which no produces exists at any level (and no JSON default) requests are sent (Accept absent or */*) and the route, the authenticators consulted, the handler reached and the consumer used are judged; only what happens after the handler returned is not (a \"can't find a producer\" failure there is tolerated: no registration could have prevented it; the same failure before the handler ran is a violation). Not judged (counted as skipped): sending a body to an operation for which no consumes exists at any level",
+			"for an operation for which no produces exists at any level (and no JSON default) requests are sent (Accept absent or */*) and the route, the authenticators consulted, the handler reached and the consumer used are judged; only what happens after the handler returned is not (a \"can't find a producer\" failure there is tolerated: no registration could have prevented it; the same failure before the handler ran is a violation) - EXCEPT when the answer carries no body (declared success status 204, or a HEAD operation) and the handler returns a plain value: nothing is encoded, no producer is needed, so a \"can't find a producer\" failure there is a request failed for lack of a registered producer (violation) and the declared status is due. Not judged (counted as skipped): sending a body to an operation for which no consumes exists at any level",
 			"authenticator stubs either succeed with a principal or do not apply; erroring authenticators and authorizers belong to C02",
 			"a request body is well-formed for its media type: a form for the two form media types (with a boundary for multipart), a JSON object otherwise; the stub consumer registered for a form media type accepts the form as it is. An operation with a formData parameter is sent only the form media types its own consumes list names (not the API-wide default media type)",
 			"a description that cannot be loaded (go-openapi/loads is not the code under test) is counted ('harness:description-not-loadable') and dropped, not judged",
@@ -571,6 +572,9 @@ func (rec *recorder) result() interface{} {
 			return
 		}
 		rw.WriteHeader(code)
+		if code == http.StatusNoContent {
+			return // (a generated 204 responder has no payload to write)
+		}
 		if err := p.Produce(rw, payload); err != nil {
 			panic(err)
 		}
@@ -1118,9 +1122,21 @@ func serveOne(m *mon.M, sv *served, rq *Req, nontrivial bool) {
 	noProd := len(withDefault(effProduces(d, op), defaultOf(g, true))) == 0
 	producerless := false
 	ranRight := len(rec.handled) == 1 && rec.handled[0] == opName(op.Method, op.Path)
+	// bodiless: the answer of this operation carries no body (declared success status 204, or a HEAD operation) and
+	// the handler returns a plain value: nothing is to be encoded, so no producer is needed and none can be "lacking" -
+	// an operation that produces nothing on an API that validated without any producer is served like every other
+	// declared operation, and a "can't find a producer" failure is a request failed for lack of a registered producer.
+	// (A Responder result asks for a producer itself: that stays with the exemption below.)
+	bodiless := noBodyAnswer(op) && !rq.Responder
+	if noBodyAnswer(op) {
+		m.Class(fmt.Sprintf("serve:answer-without-body/%s/no-produces-at-any-level=%v/responder=%v", noBodyWhy(op), noProd, rq.Responder))
+	}
 	if pv != nil {
 		msg := fmt.Sprint(pv)
 		switch {
+		case strings.Contains(msg, "can't find a producer") && noProd && ranRight && bodiless:
+			m.Violate("serve/panic-cant-find-producer/answer-without-body-of-an-operation-that-produces-nothing/"+noBodyWhy(op)+"/"+mode, fmt.Sprintf("%s panicked: %s; the operation declares no produces at any level and its answer (%s) carries no body: no producer is needed, and the registrations passed Validate()\ndescription: %s", what, msg, noBodyWhy(op), render(d)), cas)
+			return
 		case strings.Contains(msg, "can't find a producer") && noProd && ranRight:
 			producerless = true
 			m.Class("serve:no-produces-at-any-level/producer-lookup-failed-after-handler")
@@ -1154,7 +1170,10 @@ func serveOne(m *mon.M, sv *served, rq *Req, nontrivial bool) {
 	text := string(rb)
 	if !producerless {
 		m.Class(fmt.Sprintf("serve:status-%d", res.StatusCode))
-		if res.StatusCode == http.StatusInternalServerError && strings.Contains(text, "can't find a producer") && noProd && ranRight {
+		if res.StatusCode == http.StatusInternalServerError && strings.Contains(text, "can't find a producer") && noProd && ranRight && bodiless {
+			m.Violate("serve/500-cant-find-producer/answer-without-body-of-an-operation-that-produces-nothing/"+noBodyWhy(op)+"/"+mode, fmt.Sprintf("%s -> 500 %s; the operation declares no produces at any level and its answer (%s) carries no body: no producer is needed, and the registrations passed Validate()\ndescription: %s", what, clipS(text), noBodyWhy(op), render(d)), cas)
+			return
+		} else if res.StatusCode == http.StatusInternalServerError && strings.Contains(text, "can't find a producer") && noProd && ranRight {
 			// the same failure, reported as an answer instead of a panic
 			producerless = true
 			m.Class("serve:no-produces-at-any-level/producer-lookup-failed-after-handler")
@@ -1224,6 +1243,15 @@ func serveOne(m *mon.M, sv *served, rq *Req, nontrivial bool) {
 		if !checkConsumer(m, op, g, rq, rec, what, mode, cas) {
 			return
 		}
+		if bodiless {
+			// nothing had to be encoded: the operation is served like any other (its declared status)
+			if res.StatusCode != op.Code {
+				m.Violate("serve/unexpected-status/answer-without-body-of-an-operation-that-produces-nothing/"+noBodyWhy(op)+"/"+mode, fmt.Sprintf("%s -> %d %s, declared success code %d (no produces at any level; the answer carries no body, so no producer is needed)\ndescription: %s", what, res.StatusCode, clipS(text), op.Code, render(d)), cas)
+				return
+			}
+			m.Class("serve:ok-no-produces/answered-without-body/" + noBodyWhy(op))
+			return
+		}
 		m.Class("serve:ok-handler-reached-no-produces")
 		return
 	}
@@ -1231,8 +1259,9 @@ func serveOne(m *mon.M, sv *served, rq *Req, nontrivial bool) {
 		m.Violate("serve/unexpected-status/"+mode, fmt.Sprintf("%s -> %d %s, declared success code %d", what, res.StatusCode, clipS(text), op.Code), cas)
 		return
 	}
-	// the producer that wrote the body must be the one registered for the announced media type
-	if op.Method != "head" {
+	// the producer that wrote the body must be the one registered for the announced media type (a 204 has no body:
+	// who writes nothing is not judged here)
+	if op.Method != "head" && op.Code != http.StatusNoContent {
 		ct, _, _ := mime.ParseMediaType(res.Header.Get("Content-Type"))
 		if !setOf(lowerAll(g.Producers))[ct] && ct == "application/json" && !g.NoJSONDefaults {
 			// the library's own JSON default was left in place by this registration set
@@ -1270,6 +1299,38 @@ func checkConsumer(m *mon.M, op *Op, g *Reg, rq *Req, rec *recorder, what, mode 
 		}
 	}
 	return true
+}
+
+// noBodyAnswer: the answer of the operation carries no body whatever the handler returns.
+func noBodyAnswer(op *Op) bool { return op.Code == http.StatusNoContent || op.Method == "head" }
+
+func noBodyWhy(op *Op) string {
+	if op.Code == http.StatusNoContent {
+		return "declared-204"
+	}
+	return "head-operation"
+}
+
+// shapeNoBody is the generator's dimension "operations that answer without a body": one operation in six declares
+// 204 as its success status; one description in ten is command-style (flush, delete, set ...): nothing is produced
+// at any level and two operations in three declare 204. It draws from a PRNG of its own: the descriptions are
+// otherwise what genDesc made them.
+func shapeNoBody(r *rand.Rand, d *Desc) {
+	command := r.Intn(10) == 0
+	if command {
+		d.Produces = nil
+	}
+	for i := range d.Ops {
+		op := &d.Ops[i]
+		if command {
+			op.Produces = nil
+			if r.Intn(3) > 0 {
+				op.Code = http.StatusNoContent
+			}
+		} else if r.Intn(6) == 0 {
+			op.Code = http.StatusNoContent
+		}
+	}
 }
 
 func lowerAll(l []string) []string {
@@ -2254,9 +2315,11 @@ func run(m *mon.M) {
 	debug.SetGCPercent(800)
 	resetReadings()
 	r := m.Rand("descriptions")
+	rb := m.Rand("answers-without-body")
 	n := m.N(700, 7000)
 	for i := 0; i < n; i++ {
 		d := genDesc(r)
+		shapeNoBody(rb, d)
 		if i%wideEvery == wideEvery/2 {
 			d = genWideDesc(r)
 		}
